@@ -20,12 +20,13 @@ META = {
             "check rejects no canonical call, and types for which needs_clamp is false accept every word in type.  "
             "The model is tied to both code generators by differential execution of echo contracts on canonical "
             "encodings and a structured corruption stream (every word replaced by boundary values/offset targets, "
-            "truncation at every word boundary, extension, dirty padding) through calldata arguments (exact "
-            "accept/reject and echoed value), abi_decode, constructor arguments and external-call return data.",
-    "level_note": "Theorems are about the model (Dec.v/Abi.v); the compiler's two decoders are tied by sampled "
-                  "differential execution, not proved.  Memory-payload `hi` bound checks are not in the model: for "
-                  "abi_decode/returndata/constructor the check is one-directional (accepted => value = model decoding "
-                  "and in type; canonical => accepted).  needs_clamp is a hand model compared with both real copies on "
+            "truncation at every word boundary, extension, dirty padding) through calldata arguments, abi_decode and "
+            "external-call return data (exact accept/reject and echoed value) and constructor arguments.",
+    "level_note": "Theorems are about the model (Dec.v/Abi.v): one acceptance model for both decoders, tied by sampled "
+                  "differential execution (exact accept/reject and value for calldata, abi_decode and returndata; "
+                  "one-directional for constructor arguments), not by a proof about the code generators.  For memory "
+                  "payloads the model includes the `hi` bound discipline and dec_reads_inside shows accepted payloads "
+                  "never depend on bytes beyond them.  needs_clamp is a hand model compared with both real copies on "
                   "every generated type.  Trusted: Coq kernel + vm_compute, pyrevm.",
     "technique": "Coq proof over hand-written decoder model + differential correspondence with corruption stream",
 }
@@ -50,7 +51,9 @@ def make_pairs(ctx, n_types, depth):
     directed = directed_types()
     r.shuffle(directed)
     # always present: dynamic arrays whose elements need no clamp (bulk-copy path: the count check is the only guard)
-    must = [("darr", ("uint", 256), 2), ("darr", ("tuple", (("int", 256), ("bytesM", 32))), 2)]
+    must = [("darr", ("uint", 256), 2), ("darr", ("tuple", (("int", 256), ("bytesM", 32))), 2),
+            # dynamic tuples reached through an offset (their static footprint check is the only guard for the head)
+            ("darr", ("tuple", (("uint", 256), ("bytes", 3))), 2), ("tuple", (("tuple", (("uint", 256), ("bytes", 3))), ("uint", 8)))]
     cands = must + directed[: max(8, n_types // 2)] + [A.gen_type(r, r.randint(1, depth), budget=900) for _ in range(4 * n_types)]
     for t in cands:
         if t not in seen and len(types) < n_types:
@@ -101,14 +104,29 @@ def digest(b):
     return f"{len(b):x}:{a:x}"
 
 
+def cterm_is_extension(kind):
+    return kind.endswith("+ext")
+
+
 def classify(kind, canonical, exp, ok, out, base):
     """returns (verdict, text) ; verdict in ok | failing | corr"""
     if ok == "split":
         return "failing", "echo (calldata) and echo_mem (memory copy) disagree on the same input: " + out
+    lenient = None
+    if "|" in exp:
+        exp, lenient = exp.split("|")
+    if exp == "R" and ok and lenient not in (None, "R"):
+        # memory payload accepted although the bounds model rejects; the zero-extended follow decoder has a value
+        if (out != base) if lenient == "=" else (digest(out) != lenient[1:]):
+            return "failing", "accepted, but the observed (echoed) value differs from the decoding of the bytes"
+        if cterm_is_extension(kind):
+            return "corr", "over-long payload accepted (model: size check rejects); value is the decoding of the bytes"
+        return "failing", "accepted although an item's footprint lies outside the payload (read beyond hi)"
     if exp == "R":
         if ok:
             return "failing", "accepted an input that has no in-type decoding (model rejects)"
         return "ok", ""
+    kind = kind.replace("+ext", "")
     if kind == "len":
         if ok and int.from_bytes(out, "big") != int(exp, 16):
             return "failing", "len(x) observed by the program differs from the length in the decoding of the bytes"
@@ -144,7 +162,8 @@ def do_replay(ctx):
         ctx.violation("correspondence-broken", "replay could not run: " + res["error"][:200], d)
         return
     ok, out = res["obs"][0][0]
-    verdict, text = classify(d["entry"], d.get("corruption") == "CX []", d["model"], ok, out, base)
+    verdict, text = classify(d["entry"] + ("+ext" if str(d.get("corruption", "")).startswith("CX") else ""),
+                             d.get("corruption") == "CX []", d["model"], ok, out, base)
     ctx.log("entry", d["entry"], "config", d["config"], "type", d.get("type"), "corruption", d.get("corruption"))
     ctx.log("model outcome:", d["model"][:80], "| observed now: ok =", ok, "out =", out.hex() if isinstance(out, bytes) else out)
     ctx.corr["evaluations"] = 1
@@ -167,9 +186,12 @@ def run(ctx):
         pass
     quick = ctx.tier == "quick"
     ctx.nc_mismatch = []
-    b = ctx.coq_build(["C05/Dec.v", "C05/DecProofs.v", "C05/PropsC05.v", "C05/Harness.v"])
+    # shared ABI development (coq/STATIC, owner C06): rebuilt only if stale; C05's own files on every run
+    b = ctx.coq_build(["C06/Abi.v", "C06/AbiLemmas.v", "C06/Roundtrip.v"], force=False)
+    if b["ok"]:
+        b = ctx.coq_build(["C05/Dec.v", "C05/DecProofs.v", "C05/ReadsInside.v", "C05/PropsC05.v", "C05/Harness.v"])
     harness_ok = b["ok"] or "Harness" not in str(b.get("file", "")) and "Dec.v" not in str(b.get("file", ""))
-    pairs = make_pairs(ctx, 22 if quick else 90, 3)
+    pairs = make_pairs(ctx, 20 if quick else 90, 3)
     types = [t for t, _ in pairs]
     total = part_needs_clamp(ctx, types + [t for t in directed_types() if t not in types])
     r = ctx.rng("corrupt")
@@ -179,22 +201,28 @@ def run(ctx):
     # ---- phase 2: expectations for the corruption stream
     sel_of = {}
     exprs, corr = [], []
+    def used(kind, j):
+        u = {"mem": j % 2 == 0 or j < 8, "ret": j % 5 == 0 or j < 4, "ctor": j % 7 == 0 or j < 3}
+        return (u["mem"] or u["ret"] or u["ctor"]) if kind == "pay" else u[kind]
+
     for (t, v), base in zip(flat, bases):
-        cs = [("CX []", lambda b: b)] + H.corruptions(r, base, quick, cap=90 if quick else 200)
+        cs = [("CX []", lambda b: b)] + H.corruptions(r, base, quick, cap=70 if quick else 200)
         corr.append(cs)
         ct = f"(TTuple [{A.coq_ty(t)}])"
-        cl = "[" + "; ".join(c for c, _ in cs) + "]"
-        exprs.append(f"let t := {ct} in let base := enc t (VList [{A.coq_val(t, v)}]) in "
-                     f"join (expect_call t [1;2;3;4] base {cl})")
-        exprs.append(f"let t := {ct} in let base := enc t (VList [{A.coq_val(t, v)}]) in "
-                     f"join (expect_payload t base {cl})")
-        exprs.append(f"let t := {ct} in let base := enc t (VList [{A.coq_val(t, v)}]) in "
-                     f"join (expect_len t [1;2;3;4] base {cl})")
-        exprs.append(f"let t := {ct} in let base := enc t (VList [{A.coq_val(t, v)}]) in "
-                     f"join (expect_mem t base {cl})")
-        exprs.append(f"let t := {ct} in let base := enc t (VList [{A.coq_val(t, v)}]) in "
-                     f"join (expect_ret t base {cl})")
-    outs = A.coq_strings(exprs, "c05exp", imports=IMPORTS, shard=12, timeout=400)
+        pre = f"let t := {ct} in let base := enc t (VList [{A.coq_val(t, v)}]) in "
+
+        def lst(kind=None):
+            return "[" + "; ".join(c for j, (c, _) in enumerate(cs) if kind is None or used(kind, j)) + "]"
+        has_len = t[0] in ("bytes", "string", "darr")
+        exprs.append(pre + f"join (expect_call t [1;2;3;4] base {lst()})")
+        exprs.append(pre + f"join (expect_payload t base {lst('pay')})")
+        exprs.append(pre + (f"join (expect_len t [1;2;3;4] base {lst()})" if has_len else 'EmptyString'))
+        exprs.append(pre + f"join (expect_mem t base {lst('mem')})")
+        exprs.append(pre + f"join (expect_ret t base {lst('ret')})")
+    import time
+    t0 = time.time()
+    outs = A.coq_strings(exprs, "c05exp", imports=IMPORTS, shard=10, timeout=400)
+    ctx.log(f"coq expectations: {len(exprs)} expressions in {time.time() - t0:.1f}s")
     # ---- jobs
     cfgs = C.configs(ctx.tier)
     if not quick:
@@ -209,12 +237,12 @@ def run(ctx):
             base = bases[k]
             cs = corr[k]
             e_call = outs[5 * k].split(",")
-            e_pay = outs[5 * k + 1].split(",")
-            e_len = outs[5 * k + 2].split(",")
-            e_mem = outs[5 * k + 3].split(",")
-            e_ret = outs[5 * k + 4].split(",")
+            e_pay = iter(outs[5 * k + 1].split(","))
             has_len = t[0] in ("bytes", "string", "darr")
-            assert len(e_call) == len(cs) == len(e_pay), (len(e_call), len(cs))
+            e_len = outs[5 * k + 2].split(",") if has_len else []
+            e_mem = iter(outs[5 * k + 3].split(","))
+            e_ret = iter(outs[5 * k + 4].split(","))
+            assert len(e_call) == len(cs), (len(e_call), len(cs))
             ins, ms = [], []
             for j, (cterm, fn) in enumerate(cs):
                 data = fn(base)
@@ -223,15 +251,16 @@ def run(ctx):
                 if has_len:
                     ins.append(("len", data))
                     ms.append(("len", cterm, e_len[j], data))
-                if j % 2 == 0 or j < 8:
+                lenient = next(e_pay) if used("pay", j) else None
+                if used("mem", j):
                     ins.append(("mem", data))
-                    ms.append(("mem", cterm, e_mem[j], data))
-                if j % 5 == 0 or j < 4:
+                    ms.append(("mem", cterm, next(e_mem) + "|" + lenient, data))
+                if used("ret", j):
                     ins.append(("ret", data))
-                    ms.append(("ret", cterm, e_ret[j], data))
-                if j % 7 == 0 or j < 3:
+                    ms.append(("ret", cterm, next(e_ret) + "|" + lenient, data))
+                if used("ctor", j):
                     ins.append(("ctor", data))
-                    ms.append(("ctor", cterm, e_pay[j], data))
+                    ms.append(("ctor", cterm, lenient, data))
             inputs.append(ins)
             metas.append(ms)
             bl.append(base)
@@ -240,8 +269,10 @@ def run(ctx):
         for cfg in chosen:
             jobs.append((src, cfg, bl, inputs))
             jm.append((t, vals, src, cfg, metas, bl))
+    t0 = time.time()
     with ProcessPoolExecutor(max_workers=4) as ex:
         results = list(ex.map(H.run_job, jobs, chunksize=2))
+    ctx.log(f"echo executions: {len(jobs)} jobs in {time.time() - t0:.1f}s")
     n = 0
     stats = {"call": 0, "len": 0, "mem": 0, "ret": 0, "ctor": 0, "accepted": 0, "rejected": 0, "accepted_noncanonical": 0,
              "model_accepts_contract_rejects_payload": 0}
@@ -261,16 +292,16 @@ def run(ctx):
                 canonical = cterm == "CX []"
                 if ok is True:
                     stats["accepted"] += 1
-                    if not canonical and exp == "=":
+                    if not canonical and exp.split("|")[0] == "=":
                         stats["accepted_noncanonical"] += 1
                 elif ok is False:
                     stats["rejected"] += 1
-                    if exp != "R" and kind == "ctor":
+                    if not exp.startswith("R") and kind == "ctor":
                         stats["model_accepts_contract_rejects_payload"] += 1
                         ctx.corr.setdefault("ctor_reject_samples", [])
                         if len(ctx.corr["ctor_reject_samples"]) < 12:
                             ctx.corr["ctor_reject_samples"].append([A.eth_ty(t), cterm, cfg.name])
-                verdict, text = classify(kind, canonical, exp, ok, out, bl[vi])
+                verdict, text = classify(kind + ("+ext" if cterm.startswith("CX") else ""), canonical, exp, ok, out, bl[vi])
                 if verdict == "ok":
                     continue
                 nfail += 1
@@ -303,5 +334,4 @@ def run(ctx):
     ctx.trusted += ["Coq 8.16.1 kernel + vm_compute", "pyrevm (EVM)", "hand model of needs_clamp (compared with both copies each run)"]
     ctx.assumptions += ["echoed values are observed through the encoder (C06): a decoder defect masked by an equal and "
                         "opposite encoder defect would be missed",
-                        "memory payload `hi` checks are not modelled: abi_decode/returndata/constructor are checked "
-                        "one-directionally"]
+                        "constructor arguments are checked one-directionally (argument base inside init code not modelled)"]
